@@ -217,7 +217,7 @@ class Func(object):
     def ops(self, enabled=None):
         return [s['op'] for i, s in enumerate(self.stmts) if enabled is None or i in enabled]
 
-    def source(self, enabled=None, name=None, consts=None, trace=False):
+    def source(self, enabled=None, name=None, consts=None, trace=False, pin=False):
         """C text.  A statement whose index is not in `enabled` is replaced by
         the value it had on the failing input (`consts`, read through a volatile
         so that nothing is folded) or by a copy of parameter a.  With `trace`
@@ -242,6 +242,14 @@ class Func(object):
                 d['r'] = v
                 body = o.tmpl.format(*s['args'], **d)
                 lines.append("    %s %s; %s" % (ty, v, body))
+                if pin:
+                    # keep the operands alive across the operation (source and destination
+                    # registers must then differ)
+                    for j, (arg, t) in enumerate(zip(s['args'], o.argty)):
+                        if t == 64:
+                            lines.append("    m->q[%d] ^= %s;" % (7 - (j & 3), arg))
+                        else:
+                            lines.append("    m->w[%d] ^= %s;" % (15 - (j & 3), arg))
             if trace:
                 lines.append("    tr_[%d] = (uint64_t)%s;" % (i, v))
             (acc64 if o.ty == 64 else acc32).append(v)
